@@ -258,6 +258,11 @@ func runD3(c *core.Ctx) {
 							bad = append(bad, site{n.Pos(), "reference held in `" + id.Name + "` returned"})
 						}
 					}
+					// map assignment keeps the key's string header, append keeps the element
+					lc := strings.ToLower(callee)
+					if x.Fun != n && (strings.Contains(lc, "assign") || lc == "append") {
+						bad = append(bad, site{n.Pos(), "reference held in `" + id.Name + "` retained by " + callee + " (a map stores the key's string header, not a copy of its bytes)"})
+					}
 				case *ast.AssignStmt:
 					for i, r := range x.Rhs {
 						if ast.Unparen(r) == n && i < len(x.Lhs) {
